@@ -100,20 +100,31 @@ func poisoned(feature string) bool {
 	return false
 }
 
-// genFeatures returns the generator features of a preset: "main" = everything C01 uses minus the
-// features poisoned by open C19 findings; "all" = everything C01 uses.
+// mainPreset names the generator preset of the main workload: "all" minus the features that open
+// C19 findings poison, e.g. "all-Floats-MatchExpr" (the preset is part of the case payload, so a
+// replay does not depend on the findings file).
+func mainPreset() string {
+	p := "all"
+	for _, f := range []string{"Floats", "Strings", "MatchExpr"} {
+		if poisoned(f) {
+			p += "-" + f
+		}
+	}
+	return p
+}
+
+// genFeatures returns the generator features of a preset: everything C01's main workload uses,
+// minus the features named in the preset.
 func genFeatures(preset string, base prog.Features) prog.Features {
-	if preset == "all" {
-		return base
-	}
-	if poisoned("Floats") {
-		base.Floats = false
-	}
-	if poisoned("Strings") {
-		base.Strings = false
-	}
-	if poisoned("MatchExpr") {
-		base.MatchExpr = false
+	for _, f := range strings.Split(preset, "-")[1:] {
+		switch f {
+		case "Floats":
+			base.Floats = false
+		case "Strings":
+			base.Strings = false
+		case "MatchExpr":
+			base.MatchExpr = false
+		}
 	}
 	return base
 }
